@@ -283,7 +283,7 @@ def gen_stmt(r, st, closures, counter):
     kind = r.choice(["decl", "assign", "idx", "idx", "idx", "opassign", "opassign", "opassign", "every_slice", "every_vars",
                      "every_dict", "pop", "remove", "remove_slice", "remove_key", "consume", "swap", "swap", "update",
                      "elem", "dotassign", "closure_make", "closure_call", "forloop", "default_mat", "nested_append", "failed", "failed",
-                     "idx_equal_other_type"])
+                     "idx_equal_other_type", "and_op", "and_op", "every_op_slice", "idx_order"])
     big = total_size(st) > 160
     if kind == "decl":
         free = [v for v in VARS if v not in st]
@@ -597,6 +597,79 @@ def gen_stmt(r, st, closures, counter):
         nv = float(tv) if isinstance(tv, int) else [float(e) for e in tv]
         st[x] = set_path(xv, steps, nv)
         return "%s = %s" % (path_src(x, steps), vsrc(nv)), kind, [x]
+    if kind == "and_op":
+        # `(t1 and t2 [and t3]) op= rhs`: every target gets op(its own old value, rhs), operands in that order
+        # (non-commutative operators), targets in distinct variables
+        op = r.choice(["++", "$", "-", "append", "//"])
+        want = {"++": is_list, "append": is_list, "$": lambda t: isinstance(t, str),
+                "-": lambda t: isinstance(t, int) and not isinstance(t, bool),
+                "//": lambda t: isinstance(t, int) and not isinstance(t, bool)}[op]
+        k = r.choice([2, 2, 3])
+        if len(names) < k:
+            return None
+        tvars = r.sample(names, k)
+        targets = []
+        for y in tvars:
+            q = random_path(r, st[y], want)
+            if not q:
+                return None
+            targets.append((y, q[0], q[1]))
+        if op in ("-", "//"):
+            n = r.randint(1, 9)
+            rs, f = str(n), (lambda t: t - n) if op == "-" else (lambda t: t // n)
+        elif op == "$":
+            ev = r.choice(["z", "yy"])
+            rs, f = src(ev), lambda t: t + ev
+        elif op == "++":
+            ev = [rand_leaf(r) for _ in range(r.randint(1, 2))]
+            rs, f = vsrc(ev), lambda t: t + deep(ev)
+        else:
+            rs, ev = gen_expr(r, st)
+            if size_of(ev) > 6:
+                return None
+            f = lambda t: t + [deep(ev)]
+        if big or any((is_list(t) or isinstance(t, str)) and len(t) >= 12 for _, _, t in targets):
+            return None
+        news = [f(deep(t)) for _, _, t in targets]
+        for (y, steps, _), nv in zip(targets, news):
+            st[y] = set_path(st[y], steps, nv)
+        return "(%s) %s= %s" % (" and ".join(path_src(y, steps) for y, steps, _ in targets), op, rs), "and_op:" + op, tvars
+    if kind == "every_op_slice":
+        p = random_path(r, xv, lambda t: is_list(t) and len(t) > 0 and (all(isinstance(e, int) and not isinstance(e, bool) for e in t) or all(is_list(e) and len(e) < 10 for e in t)))
+        if not p or big:
+            return None
+        steps, tv = p
+        a = r.randint(0, len(tv))
+        b = r.randint(a, len(tv))
+        if isinstance(tv[0], int):
+            n = r.randint(1, 9)
+            for i in range(a, b):
+                tv[i] = tv[i] - n
+            return "every %s[%d:%d] -= %d" % (path_src(x, steps), a, b, n), kind, [x]
+        ev = [rand_leaf(r)]
+        for i in range(a, b):
+            tv[i] = tv[i] + deep(ev)
+        return "every %s[%d:%d] ++= %s" % (path_src(x, steps), a, b, vsrc(ev)), kind, [x]
+    if kind == "idx_order":
+        # the subscript of a plain indexed assignment is evaluated before its right-hand side:
+        # `t[len(s) - 1] = pop s` addresses the slot computed from s *before* the pop
+        others = [n_ for n_ in names if n_ != x and is_list(st[n_]) and len(st[n_]) > 0]
+        if not others:
+            return None
+        y = r.choice(others)
+        sv = st[y]
+        if is_list(xv) and len(xv) >= len(sv):
+            i = len(sv) - 1
+            val = sv.pop()
+            xv[i] = val
+            return "%s[len(%s) - 1] = pop %s" % (x, y, y), kind, [x, y]
+        if isinstance(xv, NDict) and not big:
+            key = len(sv)
+            val = sv.pop()
+            old = xv.m.get(ckey(key))
+            xv.m[ckey(key)] = (old[0] if old else key, val)
+            return "%s[len(%s)] = pop %s" % (x, y, y), kind, [x, y]
+        return None
     if kind == "nested_append":
         p = random_path(r, xv, lambda t: is_list(t) and any(is_list(e) for e in t))
         if not p:
